@@ -297,8 +297,11 @@ def check_property(pid, tier, seed, replay=None):
     evidence_path = os.path.join(EVID, pid + ".json")
     if os.path.exists(evidence_path):
         os.unlink(evidence_path)
+    # a replay file is read before the replay files of earlier runs are cleared (it may be one of them)
+    replay_lines = [l.rstrip("\n") for l in open(replay) if l.strip() and not l.startswith("#")] if replay else None
     for old in glob.glob(os.path.join(REPLAY, pid + "-*.txt")):
-        os.unlink(old)
+        if not (replay and os.path.abspath(old) == os.path.abspath(replay)):
+            os.unlink(old)
     proof_problems = []      # broken obligations
     notes = []
     cfgs = sorted({c for d in P["domains"] for c in d["cfgs"]})
@@ -418,7 +421,7 @@ def check_property(pid, tier, seed, replay=None):
                                               "reject": len([r for r in agg["reject"] if relevant(r)]), "fault": len(agg["fault"])}
 
     if replay:
-        lines = [l.rstrip("\n") for l in open(replay) if l.strip() and not l.startswith("#")]
+        lines = replay_lines
         for d in P["domains"]:
             for c in d["cfgs"]:
                 if c in exes:
